@@ -62,18 +62,26 @@ def fp_spec(spec):
     return got
 
 
+class StreamInterrupt(BaseException):
+    """What interrupts a slow read without being an Exception: KeyboardInterrupt, SystemExit from a signal handler, a
+    timeout of a cooperative scheduler.  The caller survives it and goes on using the cache."""
+
+
 class SimStream:
     """Binary source for set(read=True): seeded short reads, optional error."""
 
-    def __init__(self, data, rng, fail_after=None):
+    def __init__(self, data, rng, fail_after=None, fail_kind=None):
         self.data = data
         self.pos = 0
         self.rng = rng
         self.fail_after = fail_after
+        self.fail_kind = fail_kind
         self.short_reads = 0
 
     def read(self, n=-1):
         if self.fail_after is not None and self.pos >= self.fail_after:
+            if self.fail_kind == 'base':
+                raise StreamInterrupt('interrupted while reading the source')
             raise OSError(5, 'Input/output error (injected stream error)')
         if n is None or n < 0:
             n = len(self.data) - self.pos
@@ -112,6 +120,8 @@ def run_op(target, op, ctx=None):
         raise
     except (BlockAbort, BlockAbortBase):
         raise
+    except StreamInterrupt:
+        return ('exc', 'StreamInterrupt')
     except Exception as exc:  # noqa
         name = exc_name(exc)
         if name == 'Timeout' and exc.args:
@@ -124,7 +134,7 @@ def _value(op, ctx):
     if op.get('read'):
         data = v if isinstance(v, bytes) else pickle.dumps(v)
         rng = ctx.get('stream_rng') if ctx else None
-        return SimStream(data, rng, op.get('stream_fail'))
+        return SimStream(data, rng, op.get('stream_fail'), op.get('stream_fail_kind'))
     return v
 
 
@@ -210,6 +220,18 @@ def _do(c, op, ctx):
         return fp(c.pull(**_kw(op, ('prefix', 'side', 'expire_time', 'tag', 'retry'))))
     if name == 'peek':
         return fp(c.peek(**_kw(op, ('prefix', 'side', 'expire_time', 'tag', 'retry'))))
+    if name == 'repolicy':
+        # another handle (another process) changes the eviction policy of the directory; this handle reloads the setting
+        # the documented way - reset(key) without a value - and from then on follows the new policy
+        from . import seams
+        other = seams.dc.Cache(c.directory)
+        other.reset('eviction_policy', op['policy'])
+        other.close()
+        return fp(c.reset('eviction_policy'))
+    if name == 'reset':
+        # a settings update (bulk loads switch culling off this way); no part of the data, callable anywhere
+        target = c.cache if hasattr(c, 'cache') and not hasattr(c, 'close') else c
+        return fp(target.reset(op['key'], op['value']))
     if name == 'open_settings':
         # another handle on the same directory, opened without arguments: what it finds are the stored settings
         from . import seams
